@@ -31,7 +31,7 @@ for f in "$SRC"/${M}_*_test.go "$SRC"/${M}_demo_test.go; do
   cp "$f" "$dir/"
   mkdir -p testdata
   for d in "$SRC"/*; do
-    case "$d" in *.go|*.md|*.py|*.diff|*.log|*.txt) continue;; esac
+    case "$d" in *.go|*.md|*.py|*.diff|*.log) continue;; esac
     [ -f "$d" ] && { cp "$d" "$dir/"; cp "$d" testdata/; [ "$dir" != "." ] && cp "$d" . ; }
     [ -d "$d" ] && cp -r "$d" "$dir/" 2>/dev/null
   done
